@@ -56,6 +56,13 @@ def load_known(pid):
     for e in data.get("findings", []):
         if e.get("property") == pid and e.get("status") == "known":
             out[e["key"]] = e
+    # development aid only: proposals not yet merged into known_findings.json
+    extra = os.environ.get("VERIF_KNOWN_EXTRA")
+    if extra and os.path.exists(extra):
+        with open(extra) as f:
+            for e in json.load(f).get("findings", []):
+                if e.get("property") == pid and e.get("status") == "known":
+                    out[e["key"]] = e
     return out
 
 
